@@ -179,8 +179,8 @@ def run_evaluator_case(name, xs, lf, order, nthreads, pools, token):
         comp = [x for (tk, x) in JB.COMPLETION_LOG if tk == token]
         comp = [xs.index(x) for x in comp]
     else:
-        done = sorted(range(len(results)), key=lambda i: (results[i].t_done if results[i].t_done is not None else 0.0))
-        comp = [xs.index(results[i].x) if results[i].x in xs else -1 for i in done]
+        done = sorted(range(len(results)), key=lambda i: (getattr(results[i], "t_done", None) or 0.0))
+        comp = [xs.index(results[i].x) if getattr(results[i], "x", None) in xs else -1 for i in done]
     return jobs, results, comp
 
 
@@ -294,6 +294,10 @@ class Recorder:
         r = self.inner.evaluate_all(jobs, **kwargs)
         r = list(r)
         self.returned = r
+        try:        # fields of the returned solutions NOW (before the caller's pairing loop touches anything)
+            self.snap = [(j.solution, sol_fields(j.solution)) for j in r]
+        except Exception:
+            self.snap = None
         return r
 
 
@@ -350,18 +354,12 @@ def pairing_case(ctx, tag, evaluator, vs, pre, slow, rp, lits):
             break
     if err is None and alg.nfe != len(sols):
         ctx.violation("evaluate_all-nfe", "nfe=%r after evaluating a batch of %d" % (alg.nfe, len(sols)), rp)
-    # correspondence literal: what the evaluator returned, identified by object identity
-    if rec.returned is not None:
+    # correspondence literal: what the evaluator returned (fields at return time), identified by object identity
+    if rec.snap is not None:
         res = []
-        for j, job in enumerate(rec.returned):
-            rs = job.solution
+        for j, (rs, f) in enumerate(rec.snap):
             sid = next((k + 1 for k, s in enumerate(sols) if s is rs), 1000 + j)
-            if sid < 1000:
-                # same object: its fields at return time are its fields now, unless the pairing loop overwrote them
-                # (it does not touch identical objects)
-                res.append(sol_lit(sid, sol_fields(rs)))
-            else:
-                res.append(sol_lit(sid, sol_fields(rs)))
+            res.append(sol_lit(sid, f))
         lits.append("PR %s %s %s" % (
             C.list_lit([sol_lit(i + 1, f) for i, f in enumerate(before)]), C.list_lit(res),
             "None" if err is not None else "(Some %s)" % C.list_lit([sol_lit(i + 1, f) for i, f in enumerate(after)])))
@@ -547,19 +545,19 @@ def part_mpi(ctx):
             kw = {} if lf is None else {"log_frequency": lf}
             holder["jobs"] = list(ev.evaluate_all(jobs, **kw))
 
+        def key(o):
+            return ("job", o.x) if isinstance(o, JB.DelayJob) else ("sol", tuple(o.solution.variables))
         rp["eager"] = rng.random() < 0.5
-        out = M.run_session(W, lb, [], ch, eager=rp["eager"], master_body=body)
+        out = M.run_session(W, lb, [], ch, eager=rp["eager"], master_body=body, key=key)
         rp["choices"] = [k for k, _ in ch.made]
         stats["platypus_sessions"] += 1
         if not out["error"] and not out["deadlock"]:
-            got = [j.x for j in holder.get("jobs", [])]
+            got = [getattr(j, "x", None) for j in holder.get("jobs", [])]
             if got != xs or any(j.value != JB.job_value(j.x) for j in holder["jobs"]):
                 ctx.violation("evaluator-results-out-of-job-order:pool-mpi",
                               "PoolEvaluator(MPIPool workers=%d loadbalance=%r).evaluate_all(log_frequency=%r) returned jobs %r for %r" % (W, lb, lf, got, xs), rp)
 
-        def key(o):
-            return ("job", o.x) if isinstance(o, JB.DelayJob) else ("sol", tuple(o.solution.variables))
-        lb_batches, lb_rets = M.label_calls(out["calls"], key)
+        lb_batches, lb_rets = M.label_calls(out["calls"])
         want = [[M.task_fn(g, t) for t in ts] for (g, ts) in lb_batches]
         record(W, lb, lb_batches, out, rp, rets=lb_rets, want=want)
     lits_all = lits
@@ -623,10 +621,19 @@ def experiment_case(ctx, evname, evaluator, algs, probs, seeds, lits, rp):
 
     def alabel(a):
         return (a[0] if isinstance(a, tuple) else a).label
-    # oracle: results[alg][prob] = the results of replicates 0..seeds-1 of THAT algorithm on THAT problem, in order
+    # correspondence: the jobs as the evaluator returned them, and the nested dict
     anames = [aname(a) for a in algs]
     pnames = [pname(p) for p in probs]
-    okay = list(res.keys()) == anames and all(list(res[a].keys()) == pnames for a in res)
+    aid = {aname(a): ALG_IDS.get(aname(a), 9) for a in algs}
+    pid = {pname(p): PROB_IDS.get(pname(p), 9) for p in probs}
+    try:
+        jl = ["mkJ %d %d %d" % (aid[j.algorithm_name], pid[j.problem_name], result_id(j.instance.result.tag)) for j in rec.returned]
+        tl = ["mkA %d %s" % (aid[a], C.list_lit(["mkP %d %s" % (pid[p], zl([result_id(e.tag) for e in res[a][p]])) for p in res[a]])) for a in res]
+        lits.append("FL %s %s" % (C.list_lit(jl), C.list_lit(tl)))
+    except (KeyError, AttributeError):
+        pass        # an unrecognisable structure: the oracle below reports it
+    # oracle: results[alg][prob] = the results of replicates 0..seeds-1 of THAT algorithm on THAT problem, in order
+    okay = sorted(res.keys()) == sorted(anames) and all(sorted(res[a].keys()) == sorted(pnames) for a in res)   # key ORDER is not part of the property
     if not okay:
         ctx.violation("experiment-misfiled", "experiment() under %s has keys %r, expected algorithms %r x problems %r" % (
             evname, {a: list(res[a].keys()) for a in res}, anames, pnames), rp)
@@ -641,12 +648,6 @@ def experiment_case(ctx, evname, evaluator, algs, probs, seeds, lits, rp):
                               "experiment() under %s: results[%r][%r] holds the results of %r, expected the %d replicates %r in seed order" % (
                                   evname, aname(a), pname(p), tags, seeds, want), rp)
                 return
-    # correspondence: the jobs as the evaluator returned them, and the nested dict
-    aid = {aname(a): ALG_IDS.get(aname(a), 9) for a in algs}
-    pid = {pname(p): PROB_IDS.get(pname(p), 9) for p in probs}
-    jl = ["mkJ %d %d %d" % (aid[j.algorithm_name], pid[j.problem_name], result_id(j.instance.result.tag)) for j in rec.returned]
-    tl = ["mkA %d %s" % (aid[a], C.list_lit(["mkP %d %s" % (pid[p], zl([result_id(e.tag) for e in res[a][p]])) for p in res[a]])) for a in res]
-    lits.append("FL %s %s" % (C.list_lit(jl), C.list_lit(tl)))
     order = [result_id(j.instance.result.tag) for j in rec.returned]
     ctx.mark(("experiment", evname, tuple(anames), tuple(pnames), seeds))
     return order
@@ -768,8 +769,8 @@ def replay(ctx, data):
             ctx.count()
             if out["error"] or out["deadlock"]:
                 mpi_oracle(ctx, out, rp["W"], rp["lb"], [], rp)
-            elif [j.x for j in holder.get("jobs", [])] != rp["xs"]:
-                ctx.violation(key, "replay: PoolEvaluator(MPIPool) returned jobs %r for %r" % ([j.x for j in holder["jobs"]], rp["xs"]), rp)
+            elif [getattr(j, "x", None) for j in holder.get("jobs", [])] != rp["xs"]:
+                ctx.violation(key, "replay: PoolEvaluator(MPIPool) returned jobs %r for %r" % ([getattr(j, "x", None) for j in holder["jobs"]], rp["xs"]), rp)
         elif kind == "experiment":
             part_experiment(ctx, pools)
         else:
